@@ -7,12 +7,57 @@ PID = "C06"
 
 
 def prepare():
+    c07.gen(aliens=True)
     c07.gen()
     c07.gen_lex()
 
 
+STRUCTURAL = {"Point": "coordinates", "LineString": "coordinates", "Polygon": "coordinates", "MultiPoint": "coordinates", "MultiLineString": "coordinates",
+              "MultiPolygon": "coordinates", "GeometryCollection": "geometries", "Feature": "geometry", "FeatureCollection": "features"}
+ALIEN_KEYS = {"coordinates", "geometries", "geometry", "features"}
+
+
+def strip_aliens(v, top=True):
+    """the decoded document without the members that are named like another type's required member (GeoJSON objects only: the root and what
+    hangs below its geometry / geometries / features); returns (value, number of members removed)"""
+    n = 0
+    if isinstance(v, dict) and isinstance(v.get("type"), str) and v["type"] in STRUCTURAL:
+        own = STRUCTURAL[v["type"]]
+        out = {}
+        for k, x in v.items():
+            if k in ALIEN_KEYS and k != own:
+                n += 1
+                continue
+            if k == own and k != "coordinates":
+                if isinstance(x, list):
+                    ys = []
+                    for y in x:
+                        y2, m = strip_aliens(y, False)
+                        n += m
+                        ys.append(y2)
+                    x = ys
+                else:
+                    x, m = strip_aliens(x, False)
+                    n += m
+            out[k] = x
+        return out, n
+    return v, 0
+
+
+def explained_by_alien_members(e):
+    """True iff the output equals the input with exactly its alien members removed (the known finding KF-C06-alien-members)"""
+    try:
+        vin, vout = json.loads(e["text"]), json.loads(e["output"])
+    except Exception:
+        return False
+    stripped, n = strip_aliens(vin)
+    if vin.get("type") == "Feature" and "properties" not in stripped:
+        stripped["properties"] = vout.get("properties")      # a Feature always gets a properties member
+    return n > 0 and stripped == vout
+
+
 def run(tier, seed, t0):
-    data, meta = c07.gen()
+    data, meta = c07.gen(aliens=True)
     rows, devs = c07.split(data)
     if tier == "thorough":
         cdata, cmeta = c07.gen_chains("c07", seed)
@@ -32,8 +77,13 @@ def run(tier, seed, t0):
             # Members(), IsPoint() and Z() are specified (GeoDocOut) but are not part of C06's statement: reported, not alarmed
             api_drift[m[2]] = api_drift.get(m[2], 0) + 1
             continue
-        v.violation({"property": PID, "event": {k: e[k] for k in e if k not in ("doc", "out")}, "expected_L1": "round trip", "why": m[2],
-                     "what": "Parse(%s).JSON() = %s : %s" % (e["text"], e["output"], m[2])})
+        rec = {"property": PID, "event": {k: e[k] for k in e if k not in ("doc", "out")}, "expected_L1": "round trip", "why": m[2],
+               "what": "Parse(%s).JSON() = %s : %s" % (e["text"], e["output"], m[2])}
+        kf = v.find_known("object.go:176-186")
+        if kf is not None and m[2] == "output does not carry the information of the input" and explained_by_alien_members(e):
+            v.known_finding(kf["id"], rec)
+            continue
+        v.violation(rec)
     for l in open(os.path.join(out, "c06.panics.ndjson")):
         e = json.loads(l)
         if e["op"] == "zero-sign":
@@ -59,7 +109,7 @@ def run(tier, seed, t0):
     vlib.write_evidence(PID, tier, seed, t0, cov, [vlib.TOOLS,
                         "numbers are tokens of three float tables; output numbers are mapped back to tokens by float64 bit equality",
                         "documents using the Circle convention are not generated here (C13)",
-                        "members named like the five structural keys inside other types are not generated"],
+                        "members named like another type's required member are generated (7 documents); the pinned code drops them: known finding KF-C06-alien-members, recognised when the output equals the input minus exactly those members"],
                         len(v.violations))
     return rc
 
